@@ -95,6 +95,21 @@ def run_terms(sh, which):
             sh.counters['exhaustive terms with a group'] += 1
             if idx % 1500 == 0:
                 sh.sample({'term': D.show(term)})
+    for i in range(600 if quick else 20000):
+        idx += 1
+        if not sh.mine(idx):
+            continue
+        rng = V.rng_for('fitlong', sh.seed, i)
+        term = D.long_tail_terms(rng)
+        fw = D.flat_width(term) or 40
+        for w in {fw, fw - 1, fw - 2, fw + 1, max(1, fw - rng.randint(3, 30)), rng.randint(5, 120)}:
+            if w < 1:
+                continue
+            for f in (1.0, rng.choice(FRACS)):
+                for strat in ('smart', 'fast'):
+                    check_term(sh, which, term, w, f, strat)
+                    sh.case((term, w, f, strat))
+        sh.counters['long-tail terms (deep look-ahead)'] += 1
     for i in range(8000 if quick else 250000):
         idx += 1
         if not sh.mine(idx):
